@@ -1127,6 +1127,9 @@ class SCFGIO:
                     block_info["exiting"],
                 )
                 block_info.pop("contains")
+                # The parent is recorded by name, the link is re-established
+                # once the enclosing graph has been built.
+                block_info.pop("parent_region", None)
 
             block_class = block_type_names[block_type]
             block = block_class(
@@ -1135,12 +1138,23 @@ class SCFGIO:
                 _jump_targets=block_edges,
                 **block_info,
             )
+            if isinstance(block, RegionBlock):
+                # The sub-graph represents this region, and the regions
+                # directly inside it have this region as their parent.
+                assert block.subregion is not None
+                object.__setattr__(block.subregion, "region", block)
+                for inner in block.subregion.graph.values():
+                    if isinstance(inner, RegionBlock):
+                        object.__setattr__(inner, "parent_region", block)
 
             scfg_graph[current_name] = block
             if current_name != exiting:
                 queue.extend(edges[current_name])
 
         scfg = SCFG(scfg_graph, name_gen=name_gen)
+        for inner in scfg.graph.values():
+            if isinstance(inner, RegionBlock):
+                object.__setattr__(inner, "parent_region", scfg.region)
         return scfg
 
     @staticmethod
